@@ -198,6 +198,9 @@ func TestVfC03WildcardUDP(t *testing.T) {
 			}
 		}
 		deadline := time.Now().Add(8 * time.Second)
+		if P.limited {
+			deadline = time.Now().Add(4 * time.Second) // answers and refusals come within half a second here
+		}
 		buf := make([]byte, 4096)
 		refused := 0
 		for _, k := range socks {
